@@ -19,8 +19,23 @@ BINOPS = ["+", "-", "*", "/", "%", "^", "**", "??", "<", "<=", "==", "!=", ">=",
 PRE = "&cv = 1+1; func g(u) { u }; arr = [1,2,3]; m = {'k': 1}; s = 'abc'"
 
 
+BOUNDS = ["0", "1", "(0-1)", "(0-2)", "511", "512", "513", "2147483647", "4611686018427387904", "(0-4611686018427387904)", "9223372036854775806",
+          "9223372036854775807", "(0-9223372036854775807)", "(0-9223372036854775807-1)"]
+
+
 def operand_matrix(rnd):
     out = []
+    # boundary PAIRS for every two-operand construct
+    for a in BOUNDS:
+        for b in BOUNDS:
+            out += [f"[{a}..{b}]", f"{a}d{b}", f"arr[{a}:{b}]", f"s[{a}:{b}]", f"x=[1,2,3]; x[{a}:{b}]=[9]"]
+            if rnd.random() < 0.3:
+                out += [f"{a} {rnd.choice(BINOPS)} {b}", f"[1,2,3]*{a} + [{b}]", f"lo={a}; hi={b}; [lo..hi]"]
+    # mixed arrays through the keep / sum helpers
+    for a in VALUES:
+        for n in ("", "0", "1", "2", "3", "100", "9223372036854775807", "(0-1)"):
+            out += [f"[1,{a},3].kh({n})", f"[{a},{a}].kl({n})", f"x=[5,{a},6]; x.kh({n})"]
+        out += [f"[1,{a},3]kh3", f"[{a},2]kl", f"[1,{a},3]kl2"]
     for a in VALUES:
         out += [f"-{a}", f"+{a}", f"{a}[0]", f"{a}[1:2]", f"{a}.k", f"{a}.len()", f"{a}()", f"{a}(1)", f"{a} ? 1 : 2", f"x = {a}; x[0] = 1", f"x = {a}; x.k = 1",
                 f"x = {a}; x[0:1] = [5]", f"[{a}..3]", f"[1..{a}]", f"{a}d6", f"2d{a}", f"2d6k{a}", f"2d6min{a}", f"b{a}", f"p{a}", f"{a}a10", f"5a{a}", f"5a10m{a}",
@@ -87,7 +102,7 @@ def make_cases(rnd, n, corpus):
             hist.append(gen.G(rnd, max_depth=1).program())
         cases.append({"hist": [base64.b64encode(h.encode()).decode() for h in hist], "b64": base64.b64encode(b).decode(),
                       "flags": [rnd.random() < 0.75 for _ in range(4)] + [rnd.random() < 0.15 for _ in range(3)],
-                      "div0": rnd.random() < 0.3, "mode": rnd.choice([0, 0, -1, 1]), "defexpr": rnd.choice(["", "", "20", "d4", "x", "1+"]),
+                      "div0": rnd.random() < 0.3, "mode": rnd.choice([0, 0, -1, 1]), "defexpr": rnd.choice(["", "", "20", "d4", "x", "1+", "d", "2d", "g(1)", "cv"]),
                       "oplimit": rnd.choice([50, 30000, 30000]), "parselimit": rnd.choice([0, 0, 200, 10000000]), "st": rnd.random() < 0.3})
     return cases
 
@@ -197,12 +212,35 @@ def run(res, tier, seed):
 
     broken = None
     try:
-        if os.path.exists(os.path.join(common.COQ, "Properties", "C01.v")):
-            info = common.check_property_file("C01")
-            res.proof(info, "cd coq && make && coqc -Q . DS Properties/C01.v")
-        else:
-            res.cov["obligations"] = res.cov["discharged"] = 0
-            res.level = "exploration"
+        info = common.check_property_file("C01")
+        res.proof(info, "cd coq && make && coqc -Q . DS Properties/C01.v")
+        # the theorem's hypotheses on what the real parser emits: code_wf / spans_wf / ftab_wf of the dumped byte-code (K2 dumps)
+        import k2cases
+        wf_inputs = []
+        for c in cases[: (600 if tier == "quick" else 4000)]:
+            wf_inputs.append(k2cases.mk_input(base64.b64decode(c["b64"]), hist=[base64.b64decode(h) for h in c["hist"]], flags=c["flags"],
+                                              div0=c["div0"], mode=c["mode"], oplimit=c["oplimit"] or 30000))
+        wrows = k2cases.go_run(wf_inputs)
+        terms = []
+        for inp, row in zip(wf_inputs, wrows):
+            if not row:
+                continue
+            t, _why = k2cases.case_term(inp, row)
+            if t:
+                terms.append(t)
+        badwf = []
+        shard = 150
+        hdr = ("From Coq Require Import NArith ZArith List String.\nFrom DS Require Import Model.Str Model.Value Model.VM Model.CodeWf Corr.CorrK2 Corr.Corr01.\n"
+               "Import ListNotations.\nOpen Scope string_scope.\nSet Printing Width 1000000. Set Printing Depth 10000000.\n")
+        jobs = [(f"c01wf_{k}", hdr + "Definition cases : list k2_case := [\n" + ";\n".join(terms[k:k + shard]) + "].\n"
+                 "Definition bad := Eval vm_compute in bad_wf 0%N cases.\nPrint bad.\n") for k in range(0, len(terms), shard)]
+        for (nm, _), out in zip(jobs, common.coq_eval_many(jobs)):
+            k0 = int(nm.split("_")[1])
+            badwf += [k0 + int(x.replace("%N", "")) for x in common.parse_coq_list(out, "bad")]
+        res.cov["wf_of_real_bytecode"] = {"programs_dumped": len(terms), "not_well_formed": len(badwf)}
+        if badwf:
+            broken = Broken("hypothesis of C01_run_no_panic_partial fails on byte-code the real parser emitted (code_wf / spans_wf / ftab_wf)",
+                            {"first_case_terms": [terms[i][:600] for i in badwf[:2]]})
     except Broken as b:
         broken = b
     if broken and not found:
